@@ -125,6 +125,14 @@ claim("C14", "writer/reader frame-constant agreement (HIR append sequence vs get
       "requirement on id and controller only; the rewritten data is re-validated through CoreDocument::try_from.",
       "JSON round trip of arbitrary documents; documents mentioning the reserved placeholder.", "DESIGN.md §7 C14")
 
+claim("C15", "MIR guard-span analysis (single exclusive acquisition, both operations through the guard, no release in between, insert only on the absent edge) + HIR structural dominance of the validation steps + result discipline + decision extraction",
+      "Decides on every path of the shipped stores: insert_key_id (mem store and Stronghold) acquires exactly one exclusive guard, performs the membership test and the insertion through it, never "
+      "drops it in between and reaches the insertion only on the not-present edge — the structural necessary condition for `a second insert for a digest fails, also under racing threads`; generate "
+      "requires key/alg compatibility, sets alg = requested and kid = thumbprint of the returned key before projecting (public projection itself: C18-R4); insert requires the key type, is_private(), "
+      "an alg that is present, parsed (error propagated, never swallowed) and compatible, all before the store write; sign/delete/get_key_id/delete_key_id report a missing id; the maps are private "
+      "behind an async RwLock and no API returns a guard.",
+      "freshness of random key ids; signature/verification pairing (cryptography); actual thread schedules.", "DESIGN.md §7 C15")
+
 for _p, _r in {
     "C01": "rules not yet implemented in this revision (planned, DESIGN §7)", "C02": "rules not yet implemented in this revision",
     "C03": "rules not yet implemented in this revision", "C04": "rules not yet implemented in this revision",
